@@ -8,7 +8,9 @@ package main
 import (
 	"bytes"
 	"fmt"
+	"go/ast"
 	"go/constant"
+	"go/parser"
 	"go/scanner"
 	"go/token"
 	"go/types"
@@ -209,7 +211,6 @@ func valueEqual(v interface{}, c constant.Value) bool {
 }
 
 func observeNumber(agg *sigAgg, v interface{}, viaFunc bool) {
-	typ := fmt.Sprintf("%T", v)
 	var code *jen.Statement
 	status := "nil"
 	func() {
@@ -228,6 +229,12 @@ func observeNumber(agg *sigAgg, v interface{}, viaFunc bool) {
 	if status == "nil" {
 		expr, toks, st = renderExpr(code)
 	}
+	recordNumber(agg, v, viaFunc, expr, toks, st, "alone")
+}
+
+// recordNumber: the facts about one rendered numeric literal (alone in a small File, or one of hundreds in a large one)
+func recordNumber(agg *sigAgg, v interface{}, viaFunc bool, expr string, toks []tokn, st string, where string) {
+	typ := fmt.Sprintf("%T", v)
 	inner := expr
 	if strings.HasPrefix(expr, typ+"(") && strings.HasSuffix(expr, ")") {
 		inner = expr[len(typ)+1 : len(expr)-1]
@@ -243,9 +250,61 @@ func observeNumber(agg *sigAgg, v interface{}, viaFunc bool) {
 	etype, val, ok := evalExpr(expr)
 	veq := ok && valueEqual(v, val)
 	form := litForm(expr, typ)
-	sig := fmt.Sprint(typ, shape, form, etype, veq, isFramed, st, viaFunc)
+	sig := fmt.Sprint(typ, shape, form, etype, veq, isFramed, st, viaFunc, where)
 	agg.add(sig, Rec{"ev": "num", "type": typ, "shape": shape, "form": form, "evaltype": etype, "valeq": veq,
-		"framed": isFramed, "status": st, "viafunc": viaFunc, "example": expr, "input": fmt.Sprintf("%v", v)})
+		"framed": isFramed, "status": st, "viafunc": viaFunc, "example": expr, "input": fmt.Sprintf("%v", v), "where": where})
+}
+
+// observeBulkNumbers: several hundred values as declarations of ONE File, every value twice (far apart), rendered twice:
+// a literal says the same whatever else the File holds and however often it is rendered
+func observeBulkNumbers(agg *sigAgg, vs []interface{}) {
+	if len(vs) > 600 {
+		vs = vs[:600]
+	}
+	var f *jen.File
+	r := safely(func() ([]byte, error) {
+		f = jen.NewFile("main")
+		f.NoFormat = true
+		for pass := 0; pass < 2; pass++ {
+			for i, v := range vs {
+				v := v
+				if (i+pass)%3 == 0 {
+					f.Var().Id(fmt.Sprintf("b%d_%d", pass, i)).Op("=").LitFunc(func() interface{} { return v })
+				} else {
+					f.Var().Id(fmt.Sprintf("b%d_%d", pass, i)).Op("=").Lit(v)
+				}
+			}
+		}
+		var first, buf bytes.Buffer
+		if err := f.Render(&first); err != nil {
+			return nil, err
+		}
+		err := f.Render(&buf)
+		return buf.Bytes(), err
+	})
+	lines := map[string]string{}
+	for _, ln := range strings.Split(string(r.out), "\n") {
+		if strings.HasPrefix(ln, "var b") {
+			if i := strings.Index(ln, " = "); i > 0 {
+				lines[ln[4:i]] = ln[i+3:]
+			}
+		}
+	}
+	for pass := 0; pass < 2; pass++ {
+		for i, v := range vs {
+			expr, ok := lines[fmt.Sprintf("b%d_%d", pass, i)]
+			st := r.status
+			if st == "nil" && !ok {
+				st = "unframed"
+			}
+			src := []byte("package main\n\n\nvar x = " + expr + "\nvar y = 1")
+			toks := scanTokens(src, false)
+			if scanErrors(src) > 0 {
+				toks = append([]tokn{{tok: token.ILLEGAL, lit: "<scanner error>"}}, toks...)
+			}
+			recordNumber(agg, v, (i+pass)%3 == 0, expr, toks, st, "bulk")
+		}
+	}
 }
 
 func numberValues(r *rand.Rand, n int, tw *TraceWriter) []interface{} {
@@ -352,7 +411,9 @@ func cmdLitsNum(args []string) {
 		}
 		tw.Traces++
 	}
+	observeBulkNumbers(agg, vs)
 	tw.Stats["values"] = len(vs)
+	tw.Stats["values_in_one_large_file"] = 2 * min(len(vs), 600)
 	tw.Stats["nontrivial"] = len(vs) - 2
 	agg.flush(tw)
 	for _, s := range agg.order[:min(3, len(agg.order))] {
@@ -568,6 +629,15 @@ func cmdLitsStr(args []string) {
 		observeString(agg, d)
 		nstr++
 	}
+	// the same kinds of literal as the elements of one long list
+	observeBulkValues(agg, "byte", 256, func(i int) *jen.Statement {
+		if i%5 == 0 {
+			return jen.LitByteFunc(func() byte { return byte(i) })
+		}
+		return jen.LitByte(byte(i))
+	})
+	observeBulkValues(agg, "rune", 300, func(i int) *jen.Statement { return jen.LitRune(rune(i*37%0x2fff + 1)) })
+	observeBulkValues(agg, "string", len(docs), func(i int) *jen.Statement { return jen.Lit(docs[i]) })
 	// the same literals rendered on several goroutines at once (every goroutine builds its own statements): the value
 	// of a literal must not depend on what other goroutines render meanwhile
 	{
@@ -652,7 +722,62 @@ func cmdLitsStr(args []string) {
 	tw.Close(args[1])
 }
 
+// observeBulkValues: many literals as the elements of ONE composite literal ([]interface{}{...}: no element type to lean
+// on).  Every element must denote the same typed value as the same literal rendered alone.
+func observeBulkValues(agg *sigAgg, kind string, n int, mk func(i int) *jen.Statement) {
+	differ, example := 0, ""
+	r := safely(func() ([]byte, error) {
+		items := []jen.Code{}
+		for i := 0; i < n; i++ {
+			items = append(items, mk(i))
+		}
+		f := jen.NewFile("main")
+		f.NoFormat = true
+		f.Var().Id("x").Op("=").Index().Interface().Values(items...)
+		var buf bytes.Buffer
+		err := f.Render(&buf)
+		return buf.Bytes(), err
+	})
+	got := []string{}
+	if r.status == "nil" {
+		fset := token.NewFileSet()
+		if af, err := parser.ParseFile(fset, "", r.out, 0); err == nil {
+			ast.Inspect(af, func(nd ast.Node) bool {
+				if cl, ok := nd.(*ast.CompositeLit); ok && len(got) == 0 {
+					for _, e := range cl.Elts {
+						got = append(got, string(r.out[fset.Position(e.Pos()).Offset:fset.Position(e.End()).Offset]))
+					}
+					return false
+				}
+				return true
+			})
+		}
+	}
+	if len(got) != n {
+		differ, example = n, fmt.Sprintf("%d elements instead of %d (%s)", len(got), n, r.status)
+	} else {
+		for i := 0; i < n; i++ {
+			alone, _, st := renderExprF(func() *jen.Statement { return mk(i) })
+			t1, v1, ok1 := evalExpr(alone)
+			t2, v2, ok2 := evalExpr(got[i])
+			if st != "nil" || ok1 != ok2 || t1 != t2 || (ok1 && !constant.Compare(v1, token.EQL, v2)) {
+				differ++
+				if example == "" {
+					example = got[i] + " instead of " + alone
+				}
+			}
+		}
+	}
+	prop := "C12"
+	if kind == "number" {
+		prop = "C11"
+	}
+	agg.add("bulk"+kind+fmt.Sprint(differ > 0), Rec{"ev": "bulk", "kind": kind, "prop": prop, "n": n, "differ": differ, "example": example, "status": r.status})
+}
+
 // ---------------- C17 ----------------
+
+var tagObservations int
 
 func observeTag(agg *sigAgg, m map[string]string) { observeTagShared(agg, m, false) }
 
@@ -666,9 +791,10 @@ func observeTagShared(agg *sigAgg, given map[string]string, shared bool) {
 			m[k] = v
 		}
 	}
+	tagObservations++
 	r := safely(func() ([]byte, error) {
 		f := jen.NewFile("main")
-		f.NoFormat = true
+		f.NoFormat = shared || tagObservations%2 == 0 // every second File is formatted (the literal goes through gofmt as well)
 		fields := []jen.Code{jen.Id("A").Int().Tag(given), jen.Id("B").Int()}
 		if shared {
 			extra := map[string]string{"zz": "9"}
@@ -804,6 +930,24 @@ func cmdLitsTag(args []string) {
 		}
 		observeTagShared(agg, m, i%3 == 2)
 		nm++
+	}
+	// LARGE tags: dozens of keys, values of several thousand bytes (a generated description, an embedded schema)
+	for k := 1; k <= 48; k++ {
+		m := map[string]string{}
+		for j := 0; j < k; j++ {
+			m[fmt.Sprintf("key%02d", j)] = fmt.Sprintf("v%d", j)
+		}
+		observeTag(agg, m)
+		observeTag(agg, m)
+		nm += 2
+	}
+	for _, ln := range []int{300, 1000, 4000, 4096, 4097, 5000, 9000, 70000} {
+		for _, ch := range []string{"a", "a b", "é", "\"", "`"} {
+			v := strings.Repeat(ch, ln/len(ch))
+			observeTag(agg, map[string]string{"doc": v, "json": "x"})
+			observeTag(agg, map[string]string{"doc": v, "json": "x"})
+			nm += 2
+		}
 	}
 	tw.Traces = nm + 2
 	tw.Stats["maps"] = nm + 2
